@@ -999,7 +999,7 @@ func (s *Store) Close(wait bool) (retErr error) {
 		s.logger.Println("snapshot-on-close took ", time.Since(startT))
 	}
 
-	if err := s.snapshotCAS.BeginWithRetry("close", 10*time.Millisecond, 10*time.Second); err != nil {
+	if err := s.snapshotCAS.BeginWithRetry("close", 10*time.Second, 10*time.Millisecond); err != nil {
 		return err
 	}
 	defer s.snapshotCAS.End()
